@@ -5,9 +5,11 @@ package main
 import (
 	"encoding/hex"
 	"fmt"
+	"os"
 	"strconv"
 	"strings"
 
+	"github.com/bytom/bytom/blockchain/pseudohsm"
 	"github.com/bytom/bytom/common"
 	"github.com/bytom/bytom/common/bech32"
 	"github.com/bytom/bytom/consensus"
@@ -25,6 +27,10 @@ import (
 //	addrenc <net> <pkh|sh> <prog> | addrdec <net> <str>
 //	base32enc <data> | base32dec <str>
 //	mnnew <lang> <entropy> | mnent <lang> <i,i,x,…>
+//	mnstr <lang> <ws-variant> <i,i,x,…>   the sentence joined with irregular white space, fed to EVERY
+//	      mnemonic entry point under recover (EntropyFromMnemonic, IsMnemonicValid — compared with the
+//	      model — and MnemonicToByteArray (3 forms), NewSeedWithErrorChecking, NewSeed,
+//	      HSM.ImportKeyFromMnemonic: a panic is an oracle failure `panic:<function>`)
 
 func c29h(b []byte) string {
 	if len(b) == 0 {
@@ -204,6 +210,17 @@ func c29impl(w []string) (out string) {
 			idx = append(idx, strconv.Itoa(i))
 		}
 		return "ok " + strings.Join(idx, ",")
+	case w[0] == "mnstr" && len(w) == 4:
+		m, ok := c29sentence(w[1], w[2], w[3])
+		if !ok {
+			return "bad-op"
+		}
+		valid := mnemonic.IsMnemonicValid(m, w[1])
+		e, err := mnemonic.EntropyFromMnemonic(m, w[1])
+		if err != nil {
+			return fmt.Sprintf("err %s valid=%v", c29mnErr(err), valid)
+		}
+		return fmt.Sprintf("ok %s valid=%v", c29h(e), valid)
 	case w[0] == "mnent" && len(w) == 3:
 		wl, err := mnemonic.SetWordList(w[1])
 		if err != nil {
@@ -241,6 +258,126 @@ func c29impl(w []string) (out string) {
 	return "bad-op"
 }
 
+func c29mnErr(err error) string {
+	m := err.Error()
+	switch {
+	case m == "Invalid mnemonic":
+		return "word-count"
+	case strings.HasPrefix(m, "word `"):
+		return "unknown-word"
+	case strings.HasPrefix(m, "mnemonic's entropy doesn't match"):
+		return "checksum"
+	}
+	return "other"
+}
+
+// white-space variants of a sentence (deterministic in the variant name, so op lines replay)
+var c29wsVariants = []string{"clean", "lead", "trail", "both", "double", "tab", "nl", "crlf", "nbsp", "ideo", "mixed", "lead-tab", "trail-nl"}
+
+func c29sentence(lang, variant, idxs string) (string, bool) {
+	wl, err := mnemonic.SetWordList(lang)
+	if err != nil {
+		return "", false
+	}
+	var words []string
+	if idxs != "-" {
+		for _, x := range strings.Split(idxs, ",") {
+			if x == "x" {
+				words = append(words, "zzzzzzzzzz")
+				continue
+			}
+			i, err := strconv.Atoi(x)
+			if err != nil || i < 0 || i >= len(wl) {
+				return "", false
+			}
+			words = append(words, wl[i])
+		}
+	}
+	sep := func(i int) string { return " " }
+	pre, post := "", ""
+	switch variant {
+	case "clean":
+	case "lead":
+		pre = " "
+	case "trail":
+		post = " "
+	case "both":
+		pre, post = "  ", " "
+	case "double":
+		sep = func(i int) string {
+			if i%4 == 1 {
+				return "  "
+			}
+			return " "
+		}
+	case "tab":
+		sep = func(i int) string { return "\t" }
+	case "nl":
+		sep = func(i int) string { return "\n" }
+	case "crlf":
+		sep = func(i int) string { return "\r\n" }
+	case "nbsp":
+		sep = func(i int) string { return "\u00a0" }
+	case "ideo":
+		sep = func(i int) string { return "\u3000" }
+	case "mixed":
+		all := []string{" ", "\t", "  ", "\n", " \t ", "\u00a0", " "}
+		sep = func(i int) string { return all[i%len(all)] }
+		pre, post = "\n", "\t"
+	case "lead-tab":
+		pre = "\t"
+	case "trail-nl":
+		post = "\n"
+	default:
+		return "", false
+	}
+	var b strings.Builder
+	b.WriteString(pre)
+	for i, w := range words {
+		if i > 0 {
+			b.WriteString(sep(i))
+		}
+		b.WriteString(w)
+	}
+	b.WriteString(post)
+	return b.String(), true
+}
+
+// every other mnemonic entry point on the same sentence: must not panic (implementation only)
+func c29mnEntryPoints(c *Ctx, lang, variant, idxs string, hsm bool) {
+	m, ok := c29sentence(lang, variant, idxs)
+	if !ok {
+		return
+	}
+	call := func(name string, f func()) {
+		defer func() {
+			if r := recover(); r != nil {
+				c.Fail("panic:"+name+":"+lang+":"+variant+":"+idxs, fmt.Sprint(name, " panicked: ", r))
+				c.Count("mnapi/" + name + "/panic")
+			}
+		}()
+		f()
+		c.Count("mnapi/" + name + "/returned")
+	}
+	call("MnemonicToByteArray", func() { mnemonic.MnemonicToByteArray(m, lang) })
+	call("MnemonicToByteArray-raw", func() { mnemonic.MnemonicToByteArray(m, lang, true) })
+	call("MnemonicToByteArray-notraw", func() { mnemonic.MnemonicToByteArray(m, lang, false) })
+	call("NewSeedWithErrorChecking", func() { mnemonic.NewSeedWithErrorChecking(m, "pw", lang) })
+	call("NewSeed", func() { mnemonic.NewSeed(m, "") })
+	if hsm {
+		call("ImportKeyFromMnemonic", func() {
+			dir, err := os.MkdirTemp("/var/tmp", "verif-c29-hsm-")
+			if err != nil {
+				return
+			}
+			defer os.RemoveAll(dir)
+			h, _ := pseudohsm.VerifNew(dir, 2, 1)
+			defer pseudohsm.VerifClose(h)
+			h.ImportKeyFromMnemonic("imp", "pw", m, lang)
+		})
+	}
+}
+
 // run one op line: differential record + direct oracle from the #want annotation
 func c29op(c *Ctx, line string) string {
 	all := strings.Fields(line)
@@ -263,6 +400,9 @@ func c29op(c *Ctx, line string) string {
 		return out
 	}
 	c.Op(line, out)
+	if w[0] == "mnstr" && len(w) == 4 {
+		c29mnEntryPoints(c, w[1], w[2], w[3], strings.Contains(kind, "hsm"))
+	}
 	res := "ok"
 	if strings.HasPrefix(out, "err") {
 		res = "err"
@@ -563,6 +703,17 @@ func c29mnemonic(c *Ctx) {
 			c.Fail("mnemonic-valid:"+lang+":"+c29h(e), "IsMnemonicValid rejects a generated mnemonic")
 		}
 	}
+	// white-space variants of the valid sentence: same answer, no entry point panics
+	for _, v := range c29wsVariants {
+		if v != "clean" && c.Rng.Intn(3) != 0 {
+			continue
+		}
+		kind := "ws-" + v
+		if n == 16 && c.Rng.Intn(6) == 0 {
+			kind += "-hsm"
+		}
+		c29op(c, fmt.Sprintf("mnstr %s %s %s #kind=%s%s", lang, v, f[1], kind, c29want("ok "+c29h(e)+" valid=true")))
+	}
 	// corrupt one word: must not decode to the same entropy (checksum catches most)
 	idx := strings.Split(f[1], ",")
 	m := append([]string{}, idx...)
@@ -582,6 +733,8 @@ func c29mnemonic(c *Ctx) {
 		ms = "-"
 	}
 	c29op(c, fmt.Sprintf("mnent %s %s #kind=mutated #want=nopanic", lang, ms))
+	// near-valid sentences with irregular white space
+	c29op(c, fmt.Sprintf("mnstr %s %s %s #kind=ws-near-valid #want=nopanic", lang, c29wsVariants[c.Rng.Intn(len(c29wsVariants))], ms))
 	// invalid entropy lengths
 	bad := c.Rng.Intn(40)
 	c29op(c, fmt.Sprintf("mnnew %s %s #kind=any-length #want=nopanic", lang, c29h(c29rand(c, bad))))
